@@ -243,6 +243,11 @@ func (d *decoder) decode() (Item, error) {
 		if f.MantExp(nil) > MaxBigIntegerSizeBits+1 {
 			return nil, fmt.Errorf("%w (integer)", ErrInvalidValue)
 		}
+		// A non-zero value below 1 is not an integer; refuse it before it is
+		// printed digit by digit (1e-300000 takes half a minute).
+		if f.Sign() != 0 && f.MantExp(nil) <= 0 {
+			return nil, fmt.Errorf("%w (integer)", ErrInvalidValue)
+		}
 
 		// Int.SetString() is more efficient, but there are special
 		// cases requiring additional care for C# compatibility, that's
